@@ -190,5 +190,20 @@ claim("C14", "Lean 4: kernel-evaluated staging discipline over a control-flow ta
       "jit==eager, vmap==loop, repeatability, flatten/unflatten and leaf serialisation round trips are compared on real objects for every zoo object and method on every run.",
       _TB + " NOT a proof about JAX's tracer, XLA, vmap batching rules or Equinox's serialiser: assumptions A1/A2 of the theorem state the interface; tracegen.py's expression abstraction is trusted and validated by the harness.", "DESIGN.md §5 C14")
 
-for _p in ["C02"]:
+claim("C02", "Lean 4 theorems (Mathlib HasDerivAt/HasFDerivAt of the generated forward map as oracle) about definitions regenerated from the source (py2lean) "
+      "+ Float correspondence of the log-det outputs + autodiff-Jacobian oracle on the real objects",
+      "Theorems (all parameter values satisfying the constructor's constraint, all real inputs): for the generated Affine/Loc/Scale (either sign), Exp, SoftPlus, "
+      "Tanh and LeakyTanh (both pieces AND the switch points |x| = max_val) kernels, the log-det returned with the forward map equals log|d| where d != 0 is Mathlib's "
+      "derivative of the generated forward map, and the log-det returned with the inverse equals minus the forward one at the preimage; the generated Chain "
+      "(any length; chain rule), the generated Invert (inverse function theorem, proved) and elementwise liftings of any length (Frechet derivative = diagonal matrix, "
+      "returned value = log|det J| = sum of the children's) preserve both facts, hence every expression tree over these classes. 'Scalar whatever the shape' is a typing "
+      "fact of the model (one real per call) and is checked on the real arrays (shape ()) by the correspondence. "
+      "Classes WITH theorems: the seven leaves above, Chain, Invert, elementwise liftings. Classes WITHOUT theorems yet: RationalQuadraticSpline, TriangularAffine, Planar, "
+      "Permute/Flip, Concatenate/Stack/Partial/Reshape/Scan/Vmap, Coupling, MaskedAutoregressive, BlockAutoregressiveNetwork - their log-dets are covered only by the "
+      "float64 autodiff-Jacobian oracle on real objects (slogdet(jacfwd(transform)), ranks 0-3, run when a tie breaks) and, for the spline and Stack, by the correspondence, "
+      "until their theorems land.",
+      _TB + " Model/ToBij.lean elementwise lifting is hand-written and tied by the correspondence on real arrays of ranks 1-3. The autodiff oracle trusts jax.jacfwd and "
+      "numpy slogdet in float64 and skips points sitting on a kink of the forward map (leaky-relu hyperplane, spline interval ends).", "DESIGN.md §5 C02")
+
+for _p in []:
     NOT_YET[_p] = "not yet built in this round: theorems and correspondence under construction (see DESIGN.md §8); never claimed on the strength of the harness alone"
